@@ -799,7 +799,7 @@ def run_batch(ctx: Ctx, hists: T.List[T.List[dict]], label: str, cells: T.Option
             if c['op'] == 'edit':
                 ctx.tag('edit:' + ('remove' if c['spec'] is None else c['spec']['t']))
         ctx.seen_nontrivial(json.dumps(h, sort_keys=True))
-        ctx.sample({'history': h, 'last': obs[-1]['core'] and obs[-1]['core']['eff']}, limit=4)
+        ctx.sample({'history': h, 'last': obs[-1]['core'] and obs[-1]['core'].get('eff')}, limit=4)
         # model vs implementation
         if ctx.model_available:
             model = answers[i].split('|')
